@@ -472,12 +472,49 @@ func c10(c *core.Ctx) {
 		cr := c.Method("store/protocol.ChainDB", "CandidatesRanking")
 		mustCall(c, save, cr, nil)
 		votesLog := c.Const("chain/account.VotesLog")
-		filter := c.Method("chain/account.LogProcessor", "filterLogsByType")
+		filter := c.MethodOpt("chain/account.LogProcessor", "filterLogsByType")
+		// selectsVotes: list (a value of fn) is built by appending, out of the processor's log list, the logs whose LogType equals want
+		selects := func(fn *ssa.Function, list ssa.Value, want func(sl map[ssa.Value]bool) bool) bool {
+			for _, b := range fn.Blocks {
+				ifi := ifOf(b)
+				if ifi == nil {
+					continue
+				}
+				bo, ok := ifi.Cond.(*ssa.BinOp)
+				if !ok || bo.Op != token.EQL {
+					continue
+				}
+				sl := core.Slice(bo)
+				if !want(sl) || !core.SliceHasField(sl, c.FieldVar("chain/types.ChangeLog", "LogType")) || !core.SliceHasField(sl, c.FieldVar("chain/account.LogProcessor", "changeLogs")) {
+					continue
+				}
+				// the equal edge leads to an append that reaches the list
+				for _, in := range b.Succs[0].Instrs {
+					if cl, ok := in.(*ssa.Call); ok {
+						if bi, isB := cl.Call.Value.(*ssa.Builtin); isB && bi.Name() == "append" && core.Slice(list)[cl] {
+							return true
+						}
+					}
+				}
+			}
+			return false
+		}
 		for _, ci := range core.CallsIn(save, cr) {
 			_, a := recvArgs(ci)
 			okHash := len(a) == 2 && core.Derived(save.Params[1])[a[0]]
 			okLogs := false
-			if len(a) == 2 {
+			if len(a) == 2 && filter == nil {
+				// filterLogsByType written out in Save
+				okLogs = selects(save, a[1], func(sl map[ssa.Value]bool) bool {
+					for v := range sl {
+						if constEquals(v, votesLog) {
+							return true
+						}
+					}
+					return false
+				})
+			}
+			if len(a) == 2 && filter != nil {
 				for v := range core.Slice(a[1]) {
 					if f, is := isCallOf(v, filter); is {
 						_, fa := recvArgs(f)
@@ -519,32 +556,16 @@ func c10(c *core.Ctx) {
 			c.Check("Save:account-Puts≺CandidatesRanking", "order", okOrd, ci.Pos(), "the accounts of the block are in its account trie before the ranking looks there for the candidates that unregistered in this block")
 		}
 		// filterLogsByType selects by the LogType field out of the processor's log list
-		ff := c.Fn("chain/account.LogProcessor.filterLogsByType")
-		selOK := false
-		for _, b := range ff.Blocks {
-			ifi := ifOf(b)
-			if ifi == nil {
-				continue
-			}
-			if bo, ok := ifi.Cond.(*ssa.BinOp); ok && bo.Op == token.EQL {
-				sl := core.Slice(bo)
-				if sl[ff.Params[1]] && core.SliceHasField(sl, c.FieldVar("chain/types.ChangeLog", "LogType")) && core.SliceHasField(sl, c.FieldVar("chain/account.LogProcessor", "changeLogs")) {
-					// the equal edge leads to an append that reaches the result
-					for _, in := range b.Succs[0].Instrs {
-						if cl, ok := in.(*ssa.Call); ok {
-							if bi, isB := cl.Call.Value.(*ssa.Builtin); isB && bi.Name() == "append" {
-								for _, r := range core.Returns(ff) {
-									if core.Slice(core.RetVal(r, 0))[cl] {
-										selOK = true
-									}
-								}
-							}
-						}
-					}
+		if filter != nil {
+			ff := c.Fn("chain/account.LogProcessor.filterLogsByType")
+			selOK := false
+			for _, r := range core.Returns(ff) {
+				if selects(ff, core.RetVal(r, 0), func(sl map[ssa.Value]bool) bool { return sl[ff.Params[1]] }) {
+					selOK = true
 				}
 			}
+			c.Check("filterLogsByType:selects-by-LogType", "value-flow", selOK, ff.Pos(), "filterLogsByType returns the processor's logs whose LogType equals the asked type")
 		}
-		c.Check("filterLogsByType:selects-by-LogType", "value-flow", selOK, ff.Pos(), "filterLogsByType returns the processor's logs whose LogType equals the asked type")
 		// needMerge(VotesLog)
 		nm := c.Fn("chain/account.needMerge")
 		// partial evaluation of needMerge for the constant VotesLog (if-chains, switches and write-once lookup tables are all evaluated)
@@ -1321,6 +1342,9 @@ func c10(c *core.Ctx) {
 
 	c.Clause("C10.9", "the persisted candidate list follows every change: what blockCommit puts into the candidate cache is flushed to context.data on every successful path (or skipped only under a dirty flag every cache writer raises) — a restarted node ranks from that file (clause of C08.3, evaluated here as well)")
 	c.Run("candidates-flushed", func() { c08CandidatesFlushed(c) })
+
+	c.Clause("C10.10", "the all-candidates index of one block is not altered by what another block writes: the copy-on-write clause of PatriciaTrie.put (C09.1) is evaluated here as well — a full re-rank reads that index")
+	c.Run("index-copy-on-write", func() { c09PutCOW(c) })
 
 	c.NotDecidedf("that the incremental updateTop (four branches on list fullness and movement of the minimum) yields the same list as a full sort of all registered candidates over a history of blocks — arithmetic on runtime lists, not decided")
 	c.NotDecidedf("that the list after a restart equals the list of a node that never stopped (the persisted candidate file versus the in-memory index as values); only the structural repopulation of the index is decided")
